@@ -406,8 +406,17 @@ func genSvc(t *rapid.T, name string, depth int, leafOnly bool) svc {
 
 func genC18(t *rapid.T) c18Case {
 	root := genSvc(t, "root", 0, false)
-	// the root keeps running: its own failures are exercised by deeper nodes
-	root.Beh = []behavior{{Kind: "run", Lat: rapid.IntRange(0, 5).Draw(t, "rootlat")}}
+	// in most cases the root keeps running (a failing root takes the whole tree down with it each time, which leaves
+	// little else to see); in the others it fails like any other service while its children are running
+	if rapid.IntRange(0, 3).Draw(t, "rootfails") > 0 {
+		root.Beh = []behavior{{Kind: "run", Lat: rapid.IntRange(0, 5).Draw(t, "rootlat")}}
+	} else {
+		for i := range root.Beh {
+			if root.Beh[i].Kind == "done" || root.Beh[i].Kind == "done-slow" {
+				root.Beh[i].Kind = "error"
+			}
+		}
+	}
 	if len(root.Groups) == 0 {
 		root.Groups = [][]svc{{genSvc(t, "s0", 1, false), genSvc(t, "s1", 1, false)}}
 	}
